@@ -24,6 +24,7 @@ type in struct {
 	val  int
 	vals []int
 	h    int // handle (atomic)
+	stop int // Range: the callback asks to stop after this many entries (0 = visit everything)
 }
 
 type out struct {
@@ -94,7 +95,24 @@ var mapModel = porcupine.Model{
 			sort.Strings(ks)
 			return o.set == strings.Join(ks, ","), state
 		case "Range":
-			return o.set == state.(string), state
+			if i.stop == 0 {
+				return o.set == state.(string), state
+			}
+			// stopped early: exactly min(stop, size) entries, each one of the map's at that moment
+			got := parse(o.set)
+			want := i.stop
+			if len(m) < want {
+				want = len(m)
+			}
+			if len(got) != want {
+				return false, state
+			}
+			for k, v := range got {
+				if mv, ok := m[k]; !ok || mv != v {
+					return false, state
+				}
+			}
+			return true, state
 		case "Clear":
 			return true, ""
 		}
@@ -211,6 +229,9 @@ func concurrent(s *simrt.Sim, kind int, tier string) {
 			i := in{op: opsFor[s.Choose(len(opsFor), "op")], key: keys[s.Choose(len(keys), "key")]}
 			val++
 			i.val = val
+			if i.op == "Range" && s.Choose(3, "rangestop") == 0 {
+				i.stop = 1 + s.Choose(2, "rangestopafter")
+			}
 			if i.op == "Append" {
 				for k, m := 0, 1+s.Choose(2, "nitems"); k < m; k++ {
 					val++
@@ -275,7 +296,7 @@ func concurrent(s *simrt.Sim, kind int, tier string) {
 						m.Range(func(k string, v int) bool {
 							got[k] = v
 							s.Yield("range.cb")
-							return true
+							return i.stop == 0 || len(got) < i.stop
 						})
 						r.out.set = render(got)
 					case "Clear":
